@@ -69,7 +69,7 @@ func checkC14(p *Prog, r *Report) {
 	// R11
 	n := 0
 	for _, f := range roots {
-		n += checkSpliceLoops(p, r, pc, f)
+		n += checkSpliceLoopsScope(p, r, pc, f)
 	}
 	r.count("splices in schema edits", n)
 
